@@ -153,6 +153,11 @@ def fingerprint(x, _path='', _rdm_dict=False, _seen=None):
             # a label sequence: compared by value, so list <-> array conversion of a descriptor
             # (dict_to_list on a loaded dictionary) is not a content change
             return ('seq', tuple(tag(e) for e in x.tolist()))
+        if x.ndim == 1 and x.dtype.kind == 'f':
+            # a float sequence (label values, weights): element by element, bit-exact, *ordered* —
+            # the same form as a list of floats, so that dict_to_list's array -> list conversion of a
+            # loaded dictionary is treated like the int / str case above; a permutation is a change
+            return ('fseq', str(x.dtype), tuple(float(e).hex() for e in x.tolist()))
         if x.dtype == object:
             return ('objarr', x.shape, tuple(fingerprint(e, _path, False, _seen) for e in x.ravel().tolist()))
         return ('arr', str(x.dtype), x.shape, np.ascontiguousarray(x).tobytes())
@@ -162,13 +167,15 @@ def fingerprint(x, _path='', _rdm_dict=False, _seen=None):
         _seen = _seen | {id(x)}
         items = []
         for k in sorted(x, key=str):
-            if _rdm_dict and k == 'index':
-                continue
             items.append((str(k), fingerprint(x[k], f'{_path}.{k}', False, _seen)))
         return ('dict', tuple(items))
     if isinstance(x, (list, tuple)):
         if x and all(isinstance(e, (str, int, bool, np.str_, np.integer, np.bool_)) for e in x):
             return ('seq', tuple(tag(e) for e in x))
+        if x and all(isinstance(e, (float, np.floating)) for e in x):
+            dts = {str(e.dtype) if isinstance(e, np.floating) else 'float64' for e in x}
+            if len(dts) == 1:
+                return ('fseq', dts.pop(), tuple(float(e).hex() for e in x))
         if id(x) in _seen:
             return ('cycle',)
         _seen = _seen | {id(x)}
